@@ -59,6 +59,8 @@ def corpus(tier, seed, names, salt="pipe"):
     progs = [gen_programs.program(rng, 4) for _ in range(100000 if tier == "thorough" else 15000)]
     streams.append(("programs", ["S " + gen_programs.hexcp(p) for p in progs]))
     streams.append(("mutated_programs", ["S " + gen_programs.hexcp(gen_programs.mutate_program(rng, p)) for p in progs[: len(progs) // 2]]))
+    fic = gen_programs.forms_in_contexts(rng, None if tier == "thorough" else 25000)
+    streams.append(("forms_in_contexts", ["S " + gen_programs.hexcp(p) for p in fic]))
     streams.append(("char_soup", ["S " + gen_programs.hexcp(gen_programs.char_soup(rng)) for _ in range(100000 if tier == "thorough" else 15000)]))
     streams.append(("literal_soup", ["S " + gen_programs.hexcp(gen_programs.literal_soup(rng)) for _ in range(60000 if tier == "thorough" else 12000)]))
     return streams
